@@ -18,6 +18,11 @@ premises only on the calls the search really makes and only of calls that answer
 model, no turn restrictions, consistent adjacency) — with the distance or the speed-table traversal
 model, any weights, rates (offsets too), surcharges, aggregation and feature units: there the cost of
 an edge is `Config.costOf c e`, the floor applied to the C07 formula of the edge's own state change.
+Admissibility of the configuration's own estimate `Config.hOf` is a premise of
+`config_astar_route_least_cost` and is proved (`config_distance_estimate_admissible`,
+`config_speed_estimate_admissible`) on metrically consistent great-circle tables: sum aggregation,
+rates from the property's list (`zero / raw / factor ≥ 0 / combined`, no offset), weights, surcharges
+and lengths ≥ 0, `0 ≤ weight_factor ≤ 1`, `max_speed ≥` every table speed.
 -/
 import Compass.Proofs.SearchOpt
 import Compass.Proofs.SearchRoute
